@@ -17,8 +17,13 @@ Cat == <<
   \* the top of the two-byte length class (declared lengths 65536 .. 65804, extension 0xFEF3 .. 0xFFFF): delivered whole under a
   \* large limit, refused on the header under the default one
   [max |-> 70000, frames |-> <<Msg(1, <<3>>, <<>>, <<>>), Msg(2, <<>>, <<>>, Rep(65803, 2)), Msg(2, <<8>>, <<>>, Rep(65535, 4)), Msg(2, <<>>, <<>>, Rep(65700, 6)), Msg(1, <<9>>, <<>>, <<>>)>>],
-  [max |-> 65536, frames |-> <<Msg(1, <<3>>, <<>>, <<>>), Msg(2, <<>>, <<>>, Rep(65803, 2)), Msg(1, <<9>>, <<>>, <<>>)>>]
+  [max |-> 65536, frames |-> <<Msg(1, <<3>>, <<>>, <<>>), Msg(2, <<>>, <<>>, Rep(65803, 2)), Msg(1, <<9>>, <<>>, <<>>)>>],
+  \* a message the application's request monitor refuses (token DD, see Refused) between messages it lets through: every segmentation
+  [max |-> 1000, frames |-> <<Msg(1, <<>>, <<>>, <<>>), Msg(1, <<221>>, <<>>, <<>>), Msg(2, <<7>>, <<>>, <<1>>), Msg(3, <<>>, <<>>, <<>>)>>]
 >>
+\* the driver's connections run with a request monitor that refuses exactly these messages: they are taken from the stream like any
+\* other frame but not dispatched; everything else is
+Refused(m) == m.tok = <<221>>
 RECURSIVE Concat(_)
 Concat(fs) == IF fs = <<>> THEN <<>> ELSE EncTCP(Head(fs)) \o Concat(Tail(fs))
 =============================================================================
